@@ -189,7 +189,7 @@ int main(int argc, char **argv)
             hasR = true;
         }
         else { fprintf(stderr, "INFRA: unknown command %s\n", e.c_str()); return 2; }
-        alarm(0);
+        alarm(20); // the snapshot walks the same lists: keep the watchdog armed
         g_stage = "snapshot";
         // re-install the limit/tap fields (they live in the Synth object, which survives resets)
         JW w;
@@ -210,6 +210,7 @@ int main(int argc, char **argv)
         w.key("w"); tap->write(w);
         w.key("s"); writeSnapshot(w, dev, *tap, sopts);
         w.s += "}\n";
+        alarm(0);
         fputs(w.s.c_str(), g_trace);
         tap->clear();
     }
